@@ -4,6 +4,7 @@ import (
 	"fmt"
 	"go/token"
 	"go/types"
+	"regexp"
 	"sort"
 	"strings"
 
@@ -235,14 +236,28 @@ func runC02Patterns(c *Ctx) {
 				for _, p := range []string{"$0", "$1"} {
 					m.Num["geom.highestDimensionIgnoreEmpties("+p+")"] = m.Num["geom.(Geometry).Dimension("+p+")"]
 				}
-				res, err := k4run(c.P, f, m, nil)
-				if err != nil || len(res) < 1 {
-					undec = fmt.Sprintf("%v %s", err, missingList(m))
-					return false
-				}
 				dA, dB := int(m.Num["geom.(Geometry).Dimension($0)"]), int(m.Num["geom.(Geometry).Dimension($1)"])
 				aE, bE := m.Bool["geom.(Geometry).IsEmpty($0)"], m.Bool["geom.(Geometry).IsEmpty($1)"]
 				want := sp.exp(dA, dB)
+				res, err := k4run(c.P, f, m, nil)
+				if err != nil || len(res) < 1 {
+					// the predicate calls Relate and RelateMatches itself: learn its pattern set by probing
+					pats, constant, why := patternsByProbing(c.P, f, m)
+					if why != "" {
+						undec = fmt.Sprintf("%v %s; %s", err, missingList(m), why)
+						return false
+					}
+					if constant != "" {
+						res = []k4val{{kind: 1, b: constant == "true"}}
+					} else {
+						if eq, witness := sameSet(set(pats), set(want)); !eq {
+							sort.Strings(pats)
+							problem = fmt.Sprintf("for dimensions (%d,%d) the patterns %v differ from the definition %v: e.g. matrix %s is matched by one and not the other", dA, dB, pats, want, witness)
+							return false
+						}
+						return true
+					}
+				}
 				got := res[0].String()
 				if sp.fn == "Equals" && aE && bE && got == "true" {
 					return true // two empty geometries are equal by convention
@@ -358,10 +373,52 @@ func runC02Matrix(c *Ctx) {
 		cst := lookupConst(c, "geom", name)
 		c.Check(cst == want, token.NoPos, "geom."+name, "location constant", fmt.Sprintf("= %d", want), fmt.Sprintf("location constant %s is %d, the row-major DE-9IM order requires %d", name, cst, want))
 	}
-	runK4Spec(c, k4spec{rule: "C02.matrix", fn: "geom.(matrix).index", construct: "index", num: []string{"$1", "$2"}, vals: []float64{0, 1, 2},
-		what: "3*locA + locB (row-major: rows are locations of A)", want: func(m *Model) []string {
-			return []string{fmtNum(3*m.Num["$1"] + m.Num["$2"])}
-		}})
+	if c.P.Func("geom.(matrix).index") != nil {
+		runK4Spec(c, k4spec{rule: "C02.matrix", fn: "geom.(matrix).index", construct: "index", num: []string{"$1", "$2"}, vals: []float64{0, 1, 2},
+			what: "3*locA + locB (row-major: rows are locations of A)", want: func(m *Model) []string {
+				return []string{fmtNum(3*m.Num["$1"] + m.Num["$2"])}
+			}})
+	}
+	// the accessors themselves, however they compute the position: set(a, b, e) writes element
+	// 3a+b and get(a, b) reads it
+	for _, acc := range []string{"set", "get"} {
+		g := c.P.Func("geom.(*matrix)." + acc)
+		if g == nil {
+			c.Errorf("anchor geom.(*matrix).%s does not resolve", acc)
+			continue
+		}
+		problem, undec := "", ""
+		for a := 0; a < 3 && problem == "" && undec == ""; a++ {
+			for b := 0; b < 3; b++ {
+				m := &Model{Num: map[string]float64{}, Bool: map[string]bool{}, Missing: map[string]bool{}}
+				it := &k4interp{p: c.P, m: m, mem: map[string]k4val{}, inline: func(h *ssa.Function) bool { return FuncName(h) == "geom.(matrix).index" }}
+				for i := 0; i < 9; i++ {
+					it.mem[fmt.Sprintf("$0[%d]", i)] = k4val{kind: 2, f: float64(100 + i)}
+				}
+				args := []k4val{{kind: 3, s: "$0", addr: true}, {kind: 2, f: float64(a)}, {kind: 2, f: float64(b)}}
+				if acc == "set" {
+					args = append(args, k4val{kind: 2, f: 77})
+				}
+				res, err := it.call(g, args, nil)
+				if err != nil {
+					undec = fmt.Sprintf("%v %s", err, missingList(m))
+					break
+				}
+				want := 3*a + b
+				if acc == "set" {
+					for i := 0; i < 9; i++ {
+						v := it.mem[fmt.Sprintf("$0[%d]", i)]
+						if (i == want) != (v.kind == 2 && v.f == 77) {
+							problem = fmt.Sprintf("set(%d, %d, e) does not write exactly element %d of the matrix (element %d holds %s afterwards)", a, b, want, i, v)
+						}
+					}
+				} else if len(res) != 1 || res[0].kind != 2 || int(res[0].f) != 100+want {
+					problem = fmt.Sprintf("get(%d, %d) does not read element %d of the matrix", a, b, want)
+				}
+			}
+		}
+		reportK4(c, g, "row-major position", undec, problem, "element 3*locA + locB for all 9 location pairs")
+	}
 	// Relate's empty-operand branch
 	f := c.P.Func("geom.Relate")
 	if f == nil {
@@ -668,4 +725,87 @@ func runC02Location(c *Ctx) {
 	default:
 		c.OK(clo.Pos(), fn, construct, fmt.Sprintf("boundary' = boundary XOR endpoint and a flag is always set, in all %d models of (flags x endpoint-ness x closedness x operand)", models))
 	}
+}
+
+var de9imPatRe = regexp.MustCompile(`"([TF012*]{9})"`)
+
+// patternsByProbing learns the DE-9IM pattern set of a predicate that calls
+// Relate and RelateMatches itself (instead of handing a pattern list to
+// relateMatchesAnyPattern): with every match answered false it must return
+// false, and the patterns it asked about are collected; with exactly the i-th
+// of them answered true it must return true. constant is set when the
+// predicate answers without consulting Relate at all.
+func patternsByProbing(p *Program, f *ssa.Function, m0 *Model) (pats []string, constant string, why string) {
+	run := func(hit int) (string, []string, string) {
+		m := &Model{Num: m0.Num, Bool: m0.Bool, Missing: map[string]bool{}}
+		it := &k4interp{p: p, m: m, mem: map[string]k4val{}}
+		var asked []string
+		order := ""
+		it.answer = func(key string, isBool bool) (k4val, bool) {
+			if !isBool {
+				return k4val{}, false
+			}
+			if strings.Contains(key, "geom.Relate(") && !strings.Contains(key, "geom.Relate($0,$1)") {
+				order = "Relate is not called with the operands in order (a, b)"
+			}
+			if strings.Contains(key, "geom.RelateMatches(") {
+				if strings.HasSuffix(key, "#1==nil)") {
+					return k4val{kind: 1, b: true}, true
+				}
+				if strings.HasSuffix(key, "#1!=nil)") {
+					return k4val{kind: 1, b: false}, true
+				}
+				if strings.HasSuffix(key, "#0") {
+					mm := de9imPatRe.FindStringSubmatch(key)
+					if mm == nil || !strings.Contains(key, "geom.RelateMatches(geom.Relate($0,$1)#0,") {
+						order = "RelateMatches is not applied to the matrix of Relate(a, b) with a constant pattern"
+						return k4val{kind: 1, b: false}, true
+					}
+					idx := -1
+					for i, a := range asked {
+						if a == mm[1] {
+							idx = i
+						}
+					}
+					if idx < 0 {
+						asked = append(asked, mm[1])
+						idx = len(asked) - 1
+					}
+					return k4val{kind: 1, b: idx == hit}, true
+				}
+			}
+			if strings.HasPrefix(key, "(geom.Relate($0,$1)#1") {
+				return k4val{kind: 1, b: strings.HasSuffix(key, "==nil)")}, true
+			}
+			return k4val{}, false
+		}
+		res, err := it.call(f, []k4val{{kind: 3, s: "$0"}, {kind: 3, s: "$1"}}, nil)
+		if err != nil || len(res) < 1 || res[0].kind != 1 {
+			return "", nil, fmt.Sprintf("probing failed: %v %s", err, missingList(m))
+		}
+		if order != "" {
+			return "", nil, order
+		}
+		return fmt.Sprint(res[0].b), asked, ""
+	}
+	r0, asked, w := run(-1)
+	if w != "" {
+		return nil, "", w
+	}
+	if len(asked) == 0 {
+		return nil, r0, ""
+	}
+	if r0 != "false" {
+		return nil, "", "returns true although no pattern matches"
+	}
+	for i := range asked {
+		ri, _, w := run(i)
+		if w != "" {
+			return nil, "", w
+		}
+		if ri != "true" {
+			return nil, "", "returns false although pattern " + asked[i] + " matches"
+		}
+	}
+	return asked, "", ""
 }
